@@ -131,6 +131,8 @@ const TB: &[u8] = b"#{\n  a\n  b\n}\n";
 const IM: &[u8] = b"#import \"m.typ\": b, a\n";
 const ER: &[u8] = b"#let x = (\n";
 const BAD: &[u8] = b"#let x = \xff\n";
+/// syntax error AND things a formatter would change (a blank at a line end, bad spacing): still "unchanged"
+const ER2: &[u8] = b"#let a  =  1 \n#let x = (\n";
 const NONL: &[u8] = b"text #f( 1 )";
 
 #[derive(Clone, Copy, Debug, PartialEq, Eq, Hash, PartialOrd, Ord)]
@@ -357,6 +359,12 @@ pub fn expected(tree: &Tree, inv: &Invocation) -> Expected {
             let d = dir.clone().unwrap_or_default();
             let d = d.strip_prefix("<abs>").map(|r| r.trim_start_matches('/').to_string()).unwrap_or(d);
             eligible = eligible_for_format_all(&t, &d);
+            {
+                let rel = d.trim_start_matches("./").trim_end_matches('/');
+                if !rel.is_empty() && rel != "." && !t.keys().any(|k| k.starts_with(&format!("{rel}/"))) {
+                    io_error = true; // the directory does not exist: the walk fails
+                }
+            }
             for slot in eligible.clone() {
                 let Some(Entry::File(bytes)) = t.get(&slot).cloned() else { continue };
                 match fmt(&bytes, inv.style) {
@@ -719,7 +727,7 @@ impl Model for CliModel {
         let mut nolf = f0.clone();
         nolf.pop();
         let crlf: Vec<u8> = String::from_utf8_lossy(&fmt(TB, Style::Default).unwrap().unwrap()).replace('\n', "\r\n").into_bytes();
-        let special: Vec<Vec<u8>> = vec![nolf, crlf, NONL.to_vec(), TB.to_vec(), IM.to_vec(), Vec::new(), b"\n".to_vec(), b" \n".to_vec()];
+        let special: Vec<Vec<u8>> = vec![nolf, crlf, NONL.to_vec(), TB.to_vec(), IM.to_vec(), Vec::new(), b"\n".to_vec(), b" \n".to_vec(), ER2.to_vec()];
         for s in SLOTS {
             for k in &special {
                 let mut t = Tree::new();
@@ -771,12 +779,14 @@ impl Model for CliModel {
                 Some("dir.typ".into()),
                 Some("<abs>/sub".into()),
                 Some("sub/.hid".into()),
+                Some("nodir".into()),
             ];
             for d in dirs {
-                // a directory that does not exist is not explored (the statement does not cover it)
+                // the directories of the menu are explored where they exist; one directory that does
+                // not exist ("nodir") stands for the failed walk: an I/O error, exit status 1, nothing written
                 if let Some(dd) = &d {
                     let rel = dd.strip_prefix("<abs>").map(|r| r.trim_start_matches('/')).unwrap_or(dd).trim_start_matches("./").trim_end_matches('/');
-                    if !rel.is_empty() && rel != "." && !tree.keys().any(|k| k.starts_with(&format!("{rel}/"))) {
+                    if !rel.is_empty() && rel != "." && rel != "nodir" && !tree.keys().any(|k| k.starts_with(&format!("{rel}/"))) {
                         continue;
                     }
                 }
@@ -793,7 +803,7 @@ impl Model for CliModel {
                 }
             }
             if want_check {
-                for b in [U0, W, ER, BAD] {
+                for b in [U0, W, ER, BAD, ER2] {
                     actions.push(inv(Mode::Stdin(b.to_vec(), true), style, "", false));
                 }
             }
@@ -1025,7 +1035,7 @@ pub fn run_explore(property: &'static str, tier: &str, seed: u64) -> i32 {
             } else {
                 "write faults NOT explored: the sandbox file system does not support the immutable attribute".into()
             },
-            "format-all on a directory that does not exist is not explored (the statement does not say what it must do)".into(),
+            "format-all on a directory that does not exist (nodir) is an I/O error: exit status 1, nothing written".into(),
             "the reference model formats with typstyle_core linked into the harness (same working tree as the CLI binary)".into(),
         ],
         failures,
@@ -1201,6 +1211,13 @@ pub fn run_c16(tier: &str, seed: u64) -> i32 {
             for tab in 0..=16 {
                 configs.push((80, tab, r));
                 configs.push((20, tab, r));
+            }
+        }
+        // the corner where the two options are of the same size (column below, at and above the tab
+        // width): every pair in 0..=17 x 0..=16
+        for col in 0..=17 {
+            for tab in 0..=16 {
+                configs.push((col, tab, false));
             }
         }
     }
